@@ -66,6 +66,8 @@ class LargeCommunity(Attribute):
         for large_community in value:
             try:
                 value = large_community.split(':')
+                if len(value) != 3:
+                    raise ValueError('a large community has three fields')
                 for sub_value in value:
                     large_community_hex += struct.pack('!I', int(sub_value))
             except Exception:
